@@ -4,3 +4,5 @@ pub mod re;
 pub mod screen;
 pub mod ctlseq;
 pub mod regex;
+pub mod kitty;
+pub mod sixel;
